@@ -157,7 +157,26 @@ class SeqRun(object):
         return t.result
 
     # ------------------------------------------------------------------
+    def restart_step(self, op):
+        """The worker is restarted between two requests: start-up
+        synchronisation runs again (a second worker process, if any, is
+        replaced too) and must leave every stored row as it was."""
+        before = self.raw
+        self.world.stop_peer()
+        self.sim.run_inline(self.world.restart)
+        self.history.append((workload.op_brief(op), 0))
+        self.stats['restarts'] = self.stats.get('restarts', 0) + 1
+        after = dump.raw(self.world)
+        if after != before:
+            self.add({'C19', 'C11'}, 'restart-changed-state', '; '.join(
+                dump.diff(before, after)[:6]), op)
+            self.stop = True
+        self.raw = after
+        self.nat = dump.natural(self.world, after)
+
     def step(self, op):
+        if op['m'] == 'RESTART':
+            return self.restart_step(op)
         model = self.model
         before_raw, before_nat = self.raw, self.nat
         pre_model = model.clone()
@@ -537,6 +556,10 @@ class SeqRun(object):
                     self.cross_views()
                 return self.findings
             for i in range(self.n_ops):
+                if self.rng.random() < 0.02:
+                    self.step({'m': 'RESTART', 'p': '-', 'kind': 'restart'})
+                    if self.stop:
+                        break
                 op = self.gen.next_op(self.model)
                 self.step(op)
                 if self.stop:
